@@ -30,6 +30,7 @@ Definition res_eqb (a b : res) : bool :=
   | RLos x l, RLos y l' => Z.eqb x y && Bool.eqb l l'
   | RBool x, RBool y => Bool.eqb x y
   | RRange x n, RRange y n' => list_eqb pairZ_eqb x y && Z.eqb n n'
+  | RRange _ n, RCount n' => Z.eqb n n'
   | RPanic x, RPanic y => panic_kind_eqb x y
   | _, _ => false
   end.
@@ -73,7 +74,7 @@ Definition check_small (cs : case) : bool :=
       all2 (fun th rs => list_eqb res_eqb (t_results th) rs) (c_threads c) (c_results cs)
       && (if c_deadlock cs then negb (finished c) && no_thread_enabled c else finished c)
       && negb (c_panicked c)
-      && all2 contents_ok (c_insts c) (c_final cs)
+      && (match c_final cs with [] => true | _ => all2 contents_ok (c_insts c) (c_final cs) end)  (* [] = contents not observed *)
   end.
 
 (* ---- the same program on the big-step model, for single-thread, single-call-depth programs ---- *)
